@@ -10,7 +10,7 @@ ASSUMPTIONS = [
     'FP mode N (NaN taint): an arithmetic or libm result is NaN if an operand is NaN and an arbitrary double (possibly NaN or infinite) otherwise; comparisons, fabs, copysign, min/max exact. Sound for "NaN in => NaN out" and "no exception for NaN"',
     'registered entry points only: Geocentric and PolarStereographic constructors; PolarStereographic::Forward and Geocentric::IntForward for NaN transparency; the string/position parsers and UTMUPS entry points through the C04/C05/C18 harnesses re-run here (quick string lengths)',
     'for NaN-transparency the object is an arbitrary image with finite members (what the validated constructor produces)',
-    'hangs in convergence loops, stack exhaustion, allocation failure inside libstdc++ and entry points not registered are outside the claim; malformed data files: only the coefficient-header reader is targeted (thorough tier)',
+    'hangs in convergence loops, stack exhaustion, allocation failure inside libstdc++ and entry points not registered are outside the claim; malformed data files: only the header validation of SphericalEngine::coeff::readcoeffs is decided (stream as environment; read failures inside readarray are outside the claim)',
 ]
 ENT = {
     'Q1.ctor.Geocentric': (['@_ZN13GeographicLib10GeocentricC2Edd'], 'E_CTOR_GEOCENTRIC', [], 'Geocentric(a, f) returns normally iff a finite > 0 and f finite < 1; otherwise GeographicErr'),
@@ -20,6 +20,7 @@ ENT = {
 }
 
 def prepare(ctx):
+    H.ir_module(ctx, 'w_SphEng')
     H.ir_module(ctx, W)
     import harness.C04 as C04, harness.C18 as C18, harness.C05 as C05
     for mod in (C04, C18, C05):
@@ -35,8 +36,20 @@ def _cb(key, timeout=300):
     run.cbmc_timeout = timeout
     return run
 
+HR = os.path.join(build.VERIF, 'harness', 'C13', 'c13r.c')
+RC = '@_ZN13GeographicLib15SphericalEngine5coeff10readcoeffsERSiRiS3_RSt6vectorIdSaIdEES7_b'
+def ob_readcoeffs(ctx):
+    m = H.ir_module(ctx, 'w_SphEng')
+    stops = ['@_ZStplIcSt11char_traitsIcESaIcEENSt7__cxx1112basic_stringIT_T0_T1_EEOS8_PKS5_', '@_ZStplIcSt11char_traitsIcESaIcEENSt7__cxx1112basic_stringIT_T0_T1_EEOS8_S9_', '@_ZStplIcSt11char_traitsIcESaIcEENSt7__cxx1112basic_stringIT_T0_T1_EEPKS5_OS8_',
+             '@_ZN13GeographicLib7Utility3strIiEENSt7__cxx1112basic_stringIcSt11char_traitsIcESaIcEEET_i', '@_ZN13GeographicLib7Utility9readarrayIiiLb0EEEvRSiPT0_m', '@_ZN13GeographicLib7Utility9readarrayIddLb0EEEvRSiPT0_m',
+             '@_ZNSi5seekgElSt12_Ios_Seekdir', '@_ZNSt6vectorIdSaIdEE17_M_default_appendEm']
+    return e1.cbmc_check(ctx, m, 'C13', [RC], HR, function='harness_readcoeffs', unwind=8, defines=['VF_STR_MAX=4', 'VF_MEM_MAX=16'], timeout=600, stop=stops)
+ob_readcoeffs.cbmc_timeout = 600
+
 def obligations(ctx):
     obs = [Ob(k, _cb(k), '[BIT-N]', 'E1 cgen+cbmc', v[3], timeout=330, bounds={'arguments': 'all doubles'}) for k, v in ENT.items()]
+    obs.append(Ob('Q5.readcoeffs.header', ob_readcoeffs, '[BIT] stream as environment', 'E1 cgen+cbmc', 'SphericalEngine::coeff::readcoeffs: a malformed header or request (not N >= M >= 0, not N = M = -1) is rejected with GeographicErr before any vector is sized; sizes are non-negative; only GeographicErr', timeout=630,
+                  bounds={'N, N0': '(-2^14, 8)', 'M, M0': '(-2^14, 5)', 'truncate': 'both'}))
     # Q3/Q4: throw-frame, "only GeographicErr", and memory safety of the parsers: the obligations of C04, C05 and C18 that carry these clauses
     import harness.C04 as C04, harness.C18 as C18, harness.C05 as C05
     sub = dict(ctx, tier='quick')
@@ -48,6 +61,16 @@ def obligations(ctx):
     return obs
 
 def replay(rp):
+    if rp.get('obligation', '').startswith('Q5.readcoeffs'):
+        import ctypes
+        inp = rp['cex'].get('inputs', {}); g = lambda k: int(inp.get(k, 0)) if not isinstance(inp.get(k), dict) else int(inp[k].get('repr', 0))
+        N, M, N0, M0, tr = g('in_N'), g('in_M'), g('in_N0'), g('in_M0'), g('in_trunc')
+        lib = H.native({}, 'w_SphEng'); f = lib.vf_readcoeffs; f.restype = ctypes.c_int; f.argtypes = [ctypes.c_int] * 5 + [ctypes.c_void_p]
+        out = (ctypes.c_int * 2)(); rc = f(N, M, N0, M0, tr, out)
+        ok = lambda n, m: (n >= m and m >= 0) or (n == -1 and m == -1)
+        good = ok(N0, M0) and (not tr or ok(N, M))
+        bad = rc == 2 or (not good and rc != 1) or (good and rc != 0)
+        return bad, 'SphericalEngine::coeff::readcoeffs on the real code: file header (N0, M0) = (%d, %d), request (N, M) = (%d, %d), truncate = %d: %s' % (N0, M0, N, M, tr, {0: 'accepted, returns (N, M) = (%d, %d)' % (out[0], out[1]), 1: 'GeographicErr', 2: 'an exception other than GeographicErr'}[rc])
     ob = rp.get('obligation', '')
     if ob.startswith('Q3Q4.'):
         import importlib
